@@ -179,8 +179,8 @@ let run (c : s list) : s option =
   | A "mk_dc" :: nv :: pv :: _ -> e_obdd (mk_disjunctive_clause (d_n nv) (d_pv pv))
   | A "mk_dnf" :: nv :: cs :: _ -> e_obdd (nf_both mk_dnf_faithful mk_dnf (d_n nv) (d_list d_pv cs))
   | A "mk_cnf" :: nv :: cs :: _ -> e_obdd (nf_both mk_cnf_faithful mk_cnf (d_n nv) (d_list d_pv cs))
-  | A "mk_sat_exactly" :: nv :: k :: vs :: _ -> e_obdd (mk_sat_k false (d_n nv) (d_n k) (d_list d_n vs))
-  | A "mk_sat_upto" :: nv :: k :: vs :: _ -> e_obdd (mk_sat_k true (d_n nv) (d_n k) (d_list d_n vs))
+  | A "mk_sat_exactly" :: nv :: k :: vs :: _ -> e_obdd (mk_sat_k_fast false (d_n nv) (d_n k) (d_list d_n vs))   (* proved equal to mk_sat_k: Proofs/OpsFast.v *)
+  | A "mk_sat_upto" :: nv :: k :: vs :: _ -> e_obdd (mk_sat_k_fast true (d_n nv) (d_n k) (d_list d_n vs))
   | A "of_valuation" :: v :: _ -> e_bdd (of_valuation (d_bits 'v' v))
   | A "cmp_implies" :: x :: y :: _ ->
     e_outcome (e_opt (function OLt -> A "LT" | OEq -> A "EQ" | OGt -> A "GT")) (cmp_implies (d_bdd x) (d_bdd y))
